@@ -743,13 +743,19 @@ def make_spec(kind, world, cfg, rng, recv_cls, recv_ref=None):
             return {'ref': rng.choice(refs)}
         raise NeedObject(cname)
     if kind.startswith('L:'):
-        return {'list': [_gen_array_spec(kind[2:], rng, cfg) for _ in range(rng.choice([2, 2, 3]))]}
+        spec = {'list': [_gen_array_spec(kind[2:], rng, cfg) for _ in range(rng.choice([2, 2, 3, 5]))]}
+        if rng.random() < 0.25:
+            spec['tuple'] = True
+        return spec
     if kind.startswith('LO:'):
         want = 'obj:' + kind[3:]
         refs = _heap_refs(world, lambda h: h.kind == want and h.n == 1)
         if not refs:
             raise NeedObject(kind[3:])
-        return {'list': [{'ref': rng.choice(refs)} for _ in range(rng.choice([1, 2, 3]))]}
+        spec = {'list': [{'ref': rng.choice(refs)} for _ in range(rng.choice([1, 2, 3]))]}
+        if rng.random() < 0.25:
+            spec['tuple'] = True
+        return spec
     if kind == 'WRONG':
         refs = _heap_refs(world, lambda h: is_sm_object(h.value) and h.kind != 'obj:%s' % recv_cls)
         if refs and rng.random() < 0.6:
